@@ -209,12 +209,14 @@ class Flow:
                 self._add(('l', l), ('lf', l, f))
 
     # ---- queries
-    def forward(self, sources):
+    def forward(self, sources, skip_mem=False):
         seen = set(sources)
         work = list(sources)
         while work:
             n = work.pop()
             for m in self.edges.get(n, ()):
+                if skip_mem and m[0] == 'm':
+                    continue
                 if m not in seen:
                     seen.add(m)
                     work.append(m)
